@@ -39,7 +39,7 @@ COMPILER_REPLAYS = {
     "u_hirorder": ["replay/c13/hir_order.sh"],
     "u_goident": ["replay/c19/predeclared.sh", "replay/c19/init_main0.sh"],
     "u_entryname": ["replay/c19/lib_main.sh"],
-    "u_reserved": ["replay/c19/builtin_name.sh"],
+    "u_reserved": ["replay/c19/builtin_name.sh", "replay/c19/user_missing.sh"],
     "u_gensym": ["replay/c19/gensym_capture.sh"],
     "u_varname": ["replay/c19/shared_variant.sh", "replay/c02/variant_named_as_type.sh"],
     "u_genphase": ["replay/c19/phase_temps.sh"],
